@@ -289,7 +289,7 @@ func (s *keystore) persistSize() error {
 // put stores the provided keys and returns the keys that weren't present
 // already in the keystore.
 func (s *keystore) put(ctx context.Context, keys []mh.Multihash) ([]mh.Multihash, error) {
-	seen := make(map[bit256.Key]struct{}, len(keys))
+	seen := make(map[string]struct{}, len(keys))
 	b, err := s.ds.Batch(ctx)
 	if err != nil {
 		return nil, err
@@ -298,10 +298,12 @@ func (s *keystore) put(ctx context.Context, keys []mh.Multihash) ([]mh.Multihash
 
 	for _, h := range keys {
 		k := keyspace.MhToBit256(h)
-		if _, ok := seen[k]; ok {
+		// bit256.Key wraps a pointer: compare keys by value, not by identity.
+		kstr := string(keyspace.KeyToBytes(k))
+		if _, ok := seen[kstr]; ok {
 			continue
 		}
-		seen[k] = struct{}{}
+		seen[kstr] = struct{}{}
 		dsk := dsKey(k, s.prefixBits)
 		ok, err := s.ds.Has(ctx, dsk)
 		if err != nil {
@@ -469,14 +471,16 @@ func (s *keystore) delete(ctx context.Context, keys []mh.Multihash) error {
 	if err != nil {
 		return err
 	}
-	seen := make(map[bit256.Key]struct{}, len(keys))
+	seen := make(map[string]struct{}, len(keys))
 	removedCount := 0
 	for _, h := range keys {
 		k := keyspace.MhToBit256(h)
-		if _, ok := seen[k]; ok {
+		// bit256.Key wraps a pointer: compare keys by value, not by identity.
+		kstr := string(keyspace.KeyToBytes(k))
+		if _, ok := seen[kstr]; ok {
 			continue
 		}
-		seen[k] = struct{}{}
+		seen[kstr] = struct{}{}
 		dsk := dsKey(k, s.prefixBits)
 		ok, err := s.ds.Has(ctx, dsk)
 		if err != nil {
